@@ -14,4 +14,16 @@ definitions encode; any other shape is a TranslateError). Core Lean only.
                                                   `border < n`): elements that occur in no key stay singletons and do not influence the selection
 -/
 namespace Mouette.SpanSrc
+
+/-- round 9 — state of the breadth-first traversal of the feature graph in `_build_singularity_spanning_tree_with_features`
+(`Generated/C16SpanF.lean`): `visited` = the vertices whose flag `visited[v]` is True, in the order they were marked; `parent` = the
+writes `parent[v] = prev`; `flags` = the pairs `(v, prev)` whose edge `edge_id(v, prev)` was flagged by the traversal; `queue` = the deque
+of `(vertex, prev)` (`None` = `none`). `vertex_to_edges(v)` filtered by `feature_edges` and mapped by `other_edge_end(e, v)` is the
+parameter `featNbrs`; the first part of the function (one `shortest_path_to_vertex_set` per singularity) is not re-modelled. -/
+structure BSt where
+  visited : List Nat
+  parent  : List (Nat × Option Nat)
+  flags   : List (Nat × Nat)
+  queue   : List (Nat × Option Nat)
+
 end Mouette.SpanSrc
